@@ -5,6 +5,7 @@ from lib import *
 import cli
 
 PROP = "C20"
+PAR_OK = True
 LEVEL = "proof"
 RULE = ("(1) per-seed prediction: `gotree sample -n k [--replace] --seed s` on files of n = 1..9 distinct trees (k<n, k=n, k>n) and "
         "`gotree prune --random k [-r] --seed s` on random trees of 5..12 tips are run by the driver; the worker records the raw "
